@@ -11,6 +11,7 @@ import numpy as np
 
 from bisect import bisect_left
 from hopcroftkarp import HopcroftKarp
+import sys
 import warnings
 
 __all__ = ["bottleneck"]
@@ -102,21 +103,28 @@ def bottleneck(dgm1, dgm2, matching=False):
     ds = np.sort(np.unique(D.flatten()))  # [0:-1]  # Everything but np.inf
     bdist = ds[-1]
     matching = {}
-    while len(ds) >= 1:
-        idx = 0
-        if len(ds) > 1:
-            idx = bisect_left(range(ds.size), int(ds.size / 2))
-        d = ds[idx]
-        graph = {}
-        for i in range(D.shape[0]):
-            graph["{}".format(i)] = {j for j in range(D.shape[1]) if D[i, j] <= d}
-        res = HopcroftKarp(graph).maximum_matching()
-        if len(res) == 2 * D.shape[0] and d <= bdist:
-            bdist = d
-            matching = res
-            ds = ds[0:idx]
-        else:
-            ds = ds[idx + 1 : :]
+    # The depth-first search of HopcroftKarp recurses once per vertex of an
+    # augmenting path, which can be as long as the whole graph
+    recursion_limit = sys.getrecursionlimit()
+    sys.setrecursionlimit(max(recursion_limit, 4 * (M + N) + 1000))
+    try:
+        while len(ds) >= 1:
+            idx = 0
+            if len(ds) > 1:
+                idx = bisect_left(range(ds.size), int(ds.size / 2))
+            d = ds[idx]
+            graph = {}
+            for i in range(D.shape[0]):
+                graph["{}".format(i)] = {j for j in range(D.shape[1]) if D[i, j] <= d}
+            res = HopcroftKarp(graph).maximum_matching()
+            if len(res) == 2 * D.shape[0] and d <= bdist:
+                bdist = d
+                matching = res
+                ds = ds[0:idx]
+            else:
+                ds = ds[idx + 1 : :]
+    finally:
+        sys.setrecursionlimit(recursion_limit)
 
     if return_matching:
         matchidx = []
